@@ -58,6 +58,10 @@ def _variant_cfg(fam, var):
     if var.get("extra_target"):
         eng["targets"].append(su.target_cfg(50001 + var["extra_target"], sma_km=7000.0 + 300 * var["extra_target"],
                                             inc_deg=20.0 * var["extra_target"], ta_deg=45.0))
+    if var.get("reused_id"):
+        # an agent with the id of the target ADDED later (another orbit) exists from the start and is removed before
+        from harness.drivers import c01 as _c01
+        eng["targets"].append(su.target_cfg(_c01.NEW_TARGET_ID, sma_km=8000.0, inc_deg=10.0, ta_deg=200.0))
     if var.get("space_sensors"):
         import json as _json
         import os as _os
@@ -97,7 +101,15 @@ def _variant_cfg(fam, var):
     return cfg, events
 
 
-def _run_family(fam):
+def _run_variant(task):
+    """One variant in a process of its own (forked from a parent that never ran a scenario): process-wide state left
+    behind by an earlier run - caches, registries - can neither leak into the next variant nor mask a difference."""
+    fam, vi = task
+    r = _run_family(dict(fam, variants=[fam["variants"][vi]]), first_index=vi)
+    return r["records"]
+
+
+def _run_family(fam, first_index=0):
     import random as _r
 
     import numpy as np
@@ -106,7 +118,7 @@ def _run_family(fam):
     from harness.drivers import c01
     recs = []
     meta_out = []
-    for vi, var in enumerate(fam["variants"]):
+    for vi, var in enumerate(fam["variants"], start=first_index):
         cfg, evs = _variant_cfg(fam, var)
         if evs:
             case = {"start": fam["start"], "step": fam["step"], "nsteps": fam["nsteps"], "events": evs, "seed": 1}
@@ -190,6 +202,8 @@ def make_families(ctx: Ctx, rng):
         {"drop_sensor": 0, "schedule": "random", "sched_seed": 2},
         {"events": [{"kind": "removeSensor", "t0": None, "index": -1}]},   # another agent leaves mid-run
         {"events": [{"kind": "addTarget", "t0": None}], "decision": "MyopicNaiveGreedyDecision"},
+        # the id of the target that joins was used before by another agent, removed one second before the join epoch
+        {"reused_id": True, "events": [{"kind": "removeTarget", "t0": "before", "index": -1}, {"kind": "addTarget", "t0": None}]},
     ]
     specs = [("two_body", "RK45", 60, "2018-12-01T12:00:00"), ("special_perturbations", "RK45", 60, "2018-12-01T12:00:07"),
              ("two_body", "DOP853", 300, "2019-12-31T23:58:00")]
@@ -214,6 +228,8 @@ def make_families(ctx: Ctx, rng):
                 if "split_at" in var:
                     var["split"] = [var.pop("split_at"), n - 2]
                 for e in var.get("events", []):
+                    if e.get("t0") == "before":
+                        e["t0"] = fam_event_t0 - 1
                     if e.get("t0") is None:
                         # the epoch at which ANOTHER agent joins / leaves is the same in every variant of the family:
                         # the joining agent's own trajectory is defined from that epoch on
@@ -249,14 +265,25 @@ def run(ctx: Ctx):
                 "non-trivial = any variant other than the family's reference; distinct by (family, variant description)")
     ctx.assumptions = ["digest = first 56 bits of SHA-256 over the float64 bytes of eci_state",
                        "bit-for-bit comparison is meaningful because all variants execute the same float operations for the truth "
-                       "(same dynamics object settings, same integrator)"]
+                       "(same dynamics object settings, same integrator)",
+                       "every variant runs in a process of its own, forked from a parent that has imported the package but never "
+                       "run a scenario (process-wide caches cannot carry values from one variant to the next)"]
     fams = make_families(ctx, rng)
     from concurrent.futures import ThreadPoolExecutor
     with ThreadPoolExecutor(1) as bg:
         fut = bg.submit(spec_level, ctx)
-        with ProcessPoolExecutor(max_workers=min(ctx.cpus, len(fams), 10)) as ex:
-            results = list(ex.map(_run_family, fams))
+        import multiprocessing as mp
+
+        from .. import scenario_util  # noqa: F401 - imported BEFORE forking: children start with pristine, loaded modules
+        tasks = [(fam, vi) for fam in fams for vi in range(len(fam["variants"]))]
+        with mp.get_context("fork").Pool(processes=min(ctx.cpus, 10), maxtasksperchild=1) as pool:
+            recs = pool.map(_run_variant, tasks, chunksize=1)
         fut.result()
+    results = []
+    it = iter(recs)
+    for fam in fams:
+        merged = [x for _ in fam["variants"] for x in next(it)]
+        results.append({"family": {k: v for k, v in fam.items() if k != "variants"}, "variants": fam["variants"], "records": merged})
     traces = [r["records"] for r in results]
     d = ctx.sub("truthpairs")
     (d / "traces.json").write_text(json.dumps(traces))
